@@ -280,7 +280,7 @@ def run(tier, seed, only=None):
         st = re.search(r"pub struct Lexer\s[^{]*\{(.*?)\n\}", lsrc, re.S)
         fields = re.findall(r"^\s*(?:pub(?:\([^)]*\))?\s+)?(\w+)\s*:", st.group(1), re.M) if st else []
         interp = M.rust_enum_variants(lsrc, "Interpolation")
-        kmax = 3 if tier == "quick" else 4
+        kmax = 3 if tier == "quick" else 5
         base = dict(engine="mirsem (MIR -> z3 %s)" % z3.get_version_string(), solver="z3", functions=["Lexer::lex_single_str", "Lexer::consume", "Lexer::emit_singleline_token"])
         obs = {}
         for k in range(kmax + 1):
